@@ -138,7 +138,8 @@ fn compatible(o: &ObsLeaf, e: &Leaf) -> bool {
     }
     if matches!(e.kind, LeafKind::Unknown | LeafKind::Duplicate | LeafKind::Missing) {
         if let Some(n) = &o.named {
-            if *n != e.name {
+            // (the message may or may not keep the `r#` of a raw identifier: spelling, not name)
+            if n.replace("r#", "") != e.name.replace("r#", "") {
                 return false;
             }
         }
